@@ -181,11 +181,15 @@ example : entryHiddenByPath wCfg (str "/srv") ⟨str "secret.txt", false⟩ = tr
     a file or a directory, a request ends in exactly one of: the bytes of a non-hidden file below
     the root (or of its precompressed sidecar, see `sidecar_only_for_servable_file`), the listing
     of a non-hidden directory below the root, the canonical-URI redirect, or — every other
-    request — 404 when pass-thru is off and the next handler when it is on. -/
+    request — 404 when pass-thru is off and the next handler when it is on.  (With
+    `etag_file_extensions`: such a file or sidecar with the Etag of its etag file, see
+    `etag_only_from_the_served_files_etag_file`, or 500 when an etag file exists but cannot be read.) -/
 theorem otherwise_not_found_or_passthru (fs : FS) (c : Cfg) (path orig : Bytes) (hfs : fs [] = .missing)
     (hne : NoErrors fs) :
     (∃ p id, (serve fs c path orig).1 = .file p id ∧ UnderS c.rootC p ∧ c.hidden p = false ∧ fs p = .file id) ∨
     (∃ p id enc, (serve fs c path orig).1 = .sidecar p id enc) ∨
+    (∃ o n id, (serve fs c path orig).1 = .withEtag o n id) ∨
+    ((serve fs c path orig).1 = .serverError ∧ c.etagExt ≠ []) ∨
     (∃ p ns, (serve fs c path orig).1 = .listing p ns ∧ UnderS c.rootC p ∧ c.hidden p = false) ∨
     (∃ l, (serve fs c path orig).1 = .redirect l) ∨
     ((serve fs c path orig).1 = .notFound ∧ c.passThru = false) ∨
@@ -194,23 +198,27 @@ theorem otherwise_not_found_or_passthru (fs : FS) (c : Cfg) (path orig : Bytes) 
   cases ho : (serve fs c path orig).1 with
   | file p id => rw [ho] at hj; exact Or.inl ⟨p, id, rfl, hj⟩
   | sidecar p id enc => exact Or.inr (Or.inl ⟨p, id, enc, rfl⟩)
-  | listing p ns => rw [ho] at hj; exact Or.inr (Or.inr (Or.inl ⟨p, ns, rfl, hj.1, hj.2.1⟩))
-  | redirect l => exact Or.inr (Or.inr (Or.inr (Or.inl ⟨l, rfl⟩)))
-  | notFound => rw [ho] at hj; exact Or.inr (Or.inr (Or.inr (Or.inr (Or.inl ⟨rfl, hj⟩))))
-  | passThru => rw [ho] at hj; exact Or.inr (Or.inr (Or.inr (Or.inr (Or.inr ⟨rfl, hj⟩))))
+  | withEtag o n id => exact Or.inr (Or.inr (Or.inl ⟨o, n, id, rfl⟩))
+  | listing p ns => rw [ho] at hj; exact Or.inr (Or.inr (Or.inr (Or.inr (Or.inl ⟨p, ns, rfl, hj.1, hj.2.1⟩))))
+  | redirect l => exact Or.inr (Or.inr (Or.inr (Or.inr (Or.inr (Or.inl ⟨l, rfl⟩)))))
+  | notFound => rw [ho] at hj; exact Or.inr (Or.inr (Or.inr (Or.inr (Or.inr (Or.inr (Or.inl ⟨rfl, hj⟩))))))
+  | passThru => rw [ho] at hj; exact Or.inr (Or.inr (Or.inr (Or.inr (Or.inr (Or.inr (Or.inr ⟨rfl, hj⟩))))))
   | forbidden =>
     rw [ho] at hj; obtain ⟨n, hn⟩ := hj
     rcases hne n with h | ⟨_, h⟩ | ⟨_, h⟩ <;> rw [h] at hn <;> cases hn
   | serverError =>
-    rw [ho] at hj; obtain ⟨n, hn⟩ := hj
-    rcases hne n with h | ⟨_, h⟩ | ⟨_, h⟩ <;> rw [h] at hn <;> cases hn
+    rw [ho] at hj; obtain ⟨n, hn | ⟨he, _⟩⟩ := hj
+    · rcases hne n with h | ⟨_, h⟩ | ⟨_, h⟩ <;> rw [h] at hn <;> cases hn
+    · exact Or.inr (Or.inr (Or.inr (Or.inl ⟨rfl, he⟩)))
   | unavailable => rw [ho] at hj; exact absurd hj id
 
 /-- with filesystem errors: 403 only if some name answered "permission", 500 only if some name
-    answered with an unclassified error, 503 never (static filesystem) -/
+    answered with an unclassified error (or an etag file exists and cannot be read), 503 never
+    (static filesystem) -/
 theorem error_outcomes_come_from_the_filesystem (fs : FS) (c : Cfg) (path orig : Bytes) (hfs : fs [] = .missing) :
     ((serve fs c path orig).1 = .forbidden → ∃ n, fs n = .perm) ∧
-    ((serve fs c path orig).1 = .serverError → ∃ n, fs n = .other) ∧
+    ((serve fs c path orig).1 = .serverError →
+      ∃ n, fs n = .other ∨ (c.etagExt ≠ [] ∧ fs n ≠ .missing ∧ ∀ id, fs n ≠ .file id)) ∧
     (serve fs c path orig).1 ≠ .unavailable := by
   have hj := serve_justified fs c path orig hfs
   refine ⟨fun h => by rw [h] at hj; exact hj, fun h => by rw [h] at hj; exact hj, fun h => by rw [h] at hj; exact hj⟩
@@ -226,13 +234,57 @@ example : (serve wFS { wCfg with passThru := true } (str "/secret.txt") (str "/"
 
 /-- **fs_accesses_contained.** Every name the handler hands to the filesystem is the empty name,
     a name below the site root, such a name extended by the suffix of a configured precompressor
-    (`SidecarName`), or a `/`-boundary prefix of the requested file (stat'ed only, by
+    and / or a configured etag extension (`SidecarName`), or a `/`-boundary prefix of the requested file (stat'ed only, by
     `mapDirOpenError`, to turn ENOTDIR into not-found). -/
 theorem fs_accesses_contained (fs : FS) (c : Cfg) (path orig : Bytes) (hfs : fs [] = .missing) :
     ∀ n ∈ (serve fs c path orig).2,
       n = [] ∨ UnderS c.rootC n ∨ (∃ f, UnderS c.rootC f ∧ SidecarName c f n) ∨
         SlashPrefix (requestFile c path) n :=
   serve_trace fs c path orig hfs
+
+/-! ## etag files -/
+
+/-- **etag_only_from_the_served_files_etag_file.** When the `Etag` header is taken from a file, that
+    file is `name ++ ext` for a configured `etag_file_extensions` entry, where `name` is exactly
+    the name under which the served bytes were opened (the file, or its sidecar), and the served
+    outcome itself is justified as without the etag. -/
+theorem etag_only_from_the_served_files_etag_file (fs : FS) (c : Cfg) (path orig n : Bytes) (o : Outcome) (id : Nat)
+    (hfs : fs [] = .missing) (h : (serve fs c path orig).1 = .withEtag o n id) :
+    Justified fs c path o ∧ ∃ f ext, o.servedName = some f ∧ ext ∈ c.etagExt ∧ n = f ++ ext ∧ fs n = .file id := by
+  have := serve_justified fs c path orig hfs
+  rw [h] at this
+  exact this
+
+/-- `/srv/a.txt` with its etag file -/
+def etFS : FS := fun n =>
+  if n = str "/srv" then .dir [⟨str "a.txt", false⟩, ⟨str "a.txt.etag", false⟩]
+  else if n = str "/srv/a.txt" then .file 1
+  else if n = str "/srv/a.txt.etag" then .file 2
+  else .missing
+
+def etCfg : Cfg :=
+  { cwd := str "/w", root := str "/srv", hide := [str "*.etag"], index := [], browse := true, passThru := false,
+    canonical := true, etagExt := [str ".md5", str ".etag"] }
+
+example : (serve etFS { etCfg with hide := [] } (str "/a.txt") (str "/a.txt")).1
+    = .withEtag (.file (str "/srv/a.txt") 1) (str "/srv/a.txt.etag") 2 := by decide
+
+/-
+**etag_honours_hide** — full statement (violated by the code, known finding
+`hidden-etag-file-served`):
+
+    (serve fs c path orig).1 = .withEtag o n id → c.hidden n = false
+-/
+
+/-- **etag_honours_hide_full_fails.** The etag file matches the hide rule `*.etag`: requested
+    directly it is 404, it is not listed — and its content is still sent in the `Etag` header of
+    `/a.txt`. -/
+theorem etag_honours_hide_full_fails :
+    etCfg.hidden (str "/srv/a.txt.etag") = true ∧
+    (serve etFS etCfg (str "/a.txt.etag") (str "/a.txt.etag")).1 = .notFound ∧
+    (serve etFS etCfg (str "/") (str "/")).1 = .listing (str "/srv") [str "a.txt"] ∧
+    (serve etFS etCfg (str "/a.txt") (str "/a.txt")).1
+      = .withEtag (.file (str "/srv/a.txt") 1) (str "/srv/a.txt.etag") 2 := by decide
 
 /-! ## precompressed sidecars -/
 
@@ -333,6 +385,16 @@ example : (92 : UInt8) ∉ str "a*b[c-d]?^-]" := by decide
 example : globMatch (globSafe (str "a*b[c-d]?")) (str "a*b[c-d]?") = some true := by decide
 example : globMatch (globSafe (str "a*")) (str "ab") = some false := by decide
 example : globMatch (str "a*") (str "ab") = some true := by decide
+
+/-! ## defaults -/
+
+/-- **default_index_names_match_source.** The index names the examples and the driver use for an
+    omitted `index_names` are the literals of `var defaultIndexNames` in staticfiles.go, regenerated
+    from the source on every run: if the source changes, this theorem (and whatever depends on
+    the two names) is re-examined. -/
+theorem default_index_names_match_source : defaultIndexNames = [str "index.html", str "index.txt"] := by decide
+
+example : (serve wFS2 { wCfg2 with index := defaultIndexNames, browse := false } (str "/") (str "/")).1 = .notFound := by decide
 
 /-! ## the canonical-URI redirect -/
 
